@@ -1,6 +1,6 @@
 """C04  Keccak sponge, SHA-3 and SHAKE equal FIPS 202 for every input and configuration."""
 import hashlib
-from vmon.core import call, is_exc, pattern
+from vmon.core import mutable_arg, call, is_exc, pattern
 from vmon.refs import keccak as rk
 
 ID = 'C04'
@@ -114,6 +114,11 @@ def run(case, ctx, rng):
             ctx.check('pad-overflow-gets-extra-block', not is_exc(got), got, 'a digest (the two pad bits spill into an extra block)', **det)
         if not is_exc(got):
             ctx.eq('output-length', len(got), (d + 7) // 8, **det)
+        if L % 8 == 0 and (L // 8) % 3 == 0 and not case.get('explicit0'):
+            def fb(buf):
+                h = Keccak(b=b, r=r, len=d); h.duplexing = (mode == 'native')
+                return h(buf, bitlen=L) if L else h(buf)
+            mutable_arg(ctx, 'sponge==reference', fb, M, want, **det)
     elif k == 'siblings':
         from vmon.core import siblings
         from crysp.sha import SHA3
@@ -213,6 +218,8 @@ def run(case, ctx, rng):
         ctx.cls(('sha3', n, l % ((1600 - 2 * n) // 8), min(l // ((1600 - 2 * n) // 8), 4)))
         got = call(lambda: SHA3(n)(M))
         ctx.eq('sha3==hashlib', got, hashlib.new('sha3_%d' % n, M).digest(), n=n, len=l, M=M)
+        if l % 3 == 0:
+            mutable_arg(ctx, 'sha3==hashlib', (lambda buf: SHA3(n)(buf)), M, hashlib.new('sha3_%d' % n, M).digest(), n=n, len=l)
         if not is_exc(got):
             ctx.eq('output-length', len(got), n // 8, n=n)
     elif k == 'shake':
@@ -223,6 +230,16 @@ def run(case, ctx, rng):
         ctx.cls(('shake', which, l % rb, min(l // rb, 4), d))
         got = call(SHAKE128 if which == 128 else SHAKE256, M, d)
         ctx.eq('shake==hashlib', got, (hashlib.shake_128 if which == 128 else hashlib.shake_256)(M).digest(d // 8), which=which, len=l, d=d, M=M)
+        mutable_arg(ctx, 'shake==hashlib', (lambda buf: (SHAKE128 if which == 128 else SHAKE256)(buf, d)), M, (hashlib.shake_128 if which == 128 else hashlib.shake_256)(M).digest(d // 8), which=which, len=l, d=d)
+        # the two functions asked for the same output length one after the other, and SHA3 in between
+        from crysp.sha import SHA3
+        M2 = rng.randbytes(l + 1)
+        got2 = call(SHAKE256 if which == 128 else SHAKE128, M2, d)
+        ctx.eq('shake==hashlib', got2, (hashlib.shake_256 if which == 128 else hashlib.shake_128)(M2).digest(d // 8), which=384 - which, len=l + 1, d=d, after='the other SHAKE with the same d')
+        if d in (224, 256, 384, 512):
+            ctx.eq('sha3==hashlib', call(lambda: SHA3(d)(M2)), hashlib.new('sha3_%d' % d, M2).digest(), n=d, after='SHAKE with d equal to the digest size')
+        got3 = call(SHAKE128 if which == 128 else SHAKE256, M2, d)
+        ctx.eq('shake==hashlib', got3, (hashlib.shake_128 if which == 128 else hashlib.shake_256)(M2).digest(d // 8), which=which, len=l + 1, d=d, after='both SHAKEs with the same d')
     elif k == 'singleton':
         import crysp.keccak as KM
         n, l, L = case['n'], case['len'], case['L']
